@@ -14,6 +14,18 @@ import (
 	"github.com/fido-device-onboard/go-fdo/protocol"
 )
 
+// newHash returns a hash.Hash for a hash algorithm identifier received from a
+// peer, or an error if FDO does not define it.
+func newHash(alg protocol.HashAlg) (hash.Hash, error) {
+	switch alg {
+	case protocol.Sha256Hash, protocol.HmacSha256Hash:
+		return sha256.New(), nil
+	case protocol.Sha384Hash, protocol.HmacSha384Hash:
+		return sha512.New384(), nil
+	}
+	return nil, fmt.Errorf("unsupported hash algorithm: %s", alg)
+}
+
 type fallibleHash interface {
 	Err() error
 }
